@@ -8,7 +8,8 @@ generic definitions the theorems are about (Generated/FreeEnergy.lean, Model/Fre
   tab <s|l|g> <I|J> <a> <b> <v>                   the heat capacity of that phase answers I a b (J a b) = v
                                                    (values measured on the real Cn object; unknown pair → NaN)
   poly <s|l|g> <a0> <a1> <a2>                     the heat capacity of that phase is a0 + a1 T + a2 T² (closed-form I, J)
-  init <ref> <locked|-> <hasS> <hasL> <hasG> <Tm> <Tb> <Hfus> <Sfus> <HvapAtTb> <S0>     run `_init_energies`
+  init <ref> <locked|-> <hasS> <hasL> <hasG> <Tm> <Tb> <Hfus> <Sfus|auto> <HvapAtTb> <S0>   run `_init_energies`
+                                                   (`auto`: Sfus = `initSfus Hfus Tm`, i.e. `_init_data` is modelled too)
   wired <H|S> <s|l|g>                             functor class and named data of that phase's functor
   H <s|l|g> <T> <P>   /   S <s|l|g> <T> <P>       chemical.H(phase, T, P) / chemical.S(phase, T, P)
   fn <Functor> <T> <P> par=value ...              one generated functor on explicit parameters (Cn parameters: par=s|l|g)
@@ -104,7 +105,12 @@ def step (st : St) (line : String) : St × String :=
   | ["init", r, lk, hs, hl, hg, tm, tb, hfus, sfus, hvap, s0] =>
     match parsePhase? r, (if lk == "-" then some none else (parsePhase? lk).map some),
           parseBool? hs, parseBool? hl, parseBool? hg,
-          parseOpt? tm, parseOpt? tb, parseOpt? hfus, parseOpt? sfus, parseOpt? hvap, parseOpt? s0 with
+          parseOpt? tm, parseOpt? tb, parseOpt? hfus,
+          -- `auto`: the chemical was built by `_init_data`; the MODEL derives Sfus from the stored Hfus and Tm
+          (if sfus == "auto" then (match parseOpt? hfus, parseOpt? tm with
+                                   | some h, some t => some (initSfus st.env h t) | _, _ => none)
+           else parseOpt? sfus),
+          parseOpt? hvap, parseOpt? s0 with
     | some r, some lk, some hs, some hl, some hg, some tm, some tb, some hfus, some sfus, some hvap, some s0 =>
       let c : ChemIn Float := { phaseRef := r, locked := lk, hasS := hs, hasL := hl, hasG := hg, Tm := tm, Tb := tb,
                                 Hfus := hfus, Sfus := sfus, HvapAtTb := hvap, S0 := s0,
